@@ -32,8 +32,72 @@ def _walk(x, fn):
             _walk(v, fn)
 
 
+def _module_moves(j, base):
+    """A module that was renamed or whose file was moved: every baseline function under the old module path is missing, and the same
+    names with the same signatures (module path aside) exist under a path the baseline does not know.  Returns [(old_prefix, new_prefix)]."""
+    import re
+    bf = base.get("fns", {})
+    cur = {f["key"]: f for f in j["fns"]}
+    plain = lambda k: "{closure" not in k and not k.startswith("<")
+    missing = [k for k in bf if k not in cur and plain(k)]
+    new = [k for k in cur if k not in bf and plain(k)]
+    if not missing or not new:
+        return []
+    base_mods = {k.split("::")[0] for k in bf if plain(k)} | {a.split("::")[0] for a in base.get("adts", {})}
+    votes = {}
+    for m in missing:
+        ms = m.split("::")
+        for n in new:
+            ns = n.split("::")
+            # longest common suffix of path segments (at least the item name)
+            c = 0
+            while c < min(len(ms), len(ns)) and ms[-1 - c] == ns[-1 - c]:
+                c += 1
+            if c == 0 or c == len(ms) or c == len(ns):
+                continue
+            op, np_ = "::".join(ms[:-c]), "::".join(ns[:-c])
+            if not (op.split("::")[-1][:1].islower() and np_.split("::")[-1][:1].islower()):
+                continue        # only module paths (snake_case); a renamed type also changes strings that do not end in `::`
+            if op == np_ or np_.split("::")[0] in base_mods and np_ in {"::".join(k.split("::")[:len(np_.split("::"))]) for k in bf}:
+                continue
+            def strip(t, pref):
+                return re.sub(r"(?<![A-Za-z0-9_])%s::" % re.escape(pref), "", str(t))
+            if strip(bf[m].get("inputs"), op) == strip(cur[n].get("inputs"), np_) and strip(bf[m].get("ret_ty"), op) == strip(cur[n].get("ret_ty"), np_):
+                votes.setdefault((op, np_), set()).add(m)
+    out = []
+    for (op, np_), ms_ in sorted(votes.items(), key=lambda kv: -len(kv[1])):
+        under_old = [m for m in missing if m.startswith(op + "::")]
+        if under_old and set(under_old) <= ms_ and not any(k.startswith(np_ + "::") for k in bf) and not any(o == op for o, _ in out):
+            out.append((op, np_))
+    return out
+
+
+def _replace_prefix(x, old, new):
+    """rewrite every string in the facts that mentions the path `new::` to `old::` (path-segment boundaries only)"""
+    import re
+    pat = re.compile(r"(?<![A-Za-z0-9_])%s::" % re.escape(new))
+    if isinstance(x, dict):
+        for k in list(x.keys()):
+            v = x[k]
+            if isinstance(v, str):
+                if k not in ("file", "span") and (new + "::") in v:
+                    x[k] = pat.sub(old + "::", v)
+            else:
+                _replace_prefix(v, old, new)
+    elif isinstance(x, list):
+        for i, v in enumerate(x):
+            if isinstance(v, str):
+                if (new + "::") in v:
+                    x[i] = pat.sub(old + "::", v)
+            else:
+                _replace_prefix(v, old, new)
+
+
 def canonicalise_names(j, base):
     notes = []
+    for old_p, new_p in _module_moves(j, base):
+        _replace_prefix(j, old_p, new_p)
+        notes.append("module %s is baseline %s (same items and signatures under a new path)" % (new_p, old_p))
     bf = base.get("fns", {})
     cur = {f["key"]: f for f in j["fns"]}
     is_plain = lambda k: "{closure" not in k and not k.startswith("<")
